@@ -464,7 +464,7 @@ template <class G> int runOne(const std::string &name, const Args &args) {
     std::string out = args.get("out", "");
     if (!out.empty() && !rep.write(out)) return 2;
     printf("C18 %s: tuples=%llu executions=%llu points=%llu maxpoints=%llu violations=%llu wall=%.1fs\n", rep.config.c_str(), h.pairsDone, h.executions, h.pointsTotal, h.maxPoints, rep.violations(), clock_().elapsed());
-    return 0;
+    return args.has("exitcode") && rep.violations() ? 1 : 0;
 }
 
 // Canary: the harness must NOT be blind.  Two scheduled threads write the same plain int; ThreadSanitizer
